@@ -78,6 +78,8 @@ def run(prop, tier, seed):
     rng, q = run.rng, run.quick
     loader.load()
     run.model_check("MC_CircularRecord", "MC_CircularRecord_quick.cfg" if q else "MC_CircularRecord_thorough.cfg", timeout=7200)
+    if prop == "C13":
+        run.model_check("MC_CircularRecord", "Neg_CircularRecord.cfg", expect_violation="C13_TrackFollows")
     if prop in ("C13", "C14"):
         rd.replay_transitions(run, "MC_CircularRecord_replay_quick.cfg" if q else "MC_CircularRecord_replay_thorough.cfg")
     chains = op_chains(rng, q, prop) + exhaustive_small(rng, prop)
